@@ -41,6 +41,7 @@ class TRec:
         self.always = False
         self.done_run = None     # run in which it was built or found clean
         self.nested_csum = False
+        self.kind = None         # "gen": last recorded as a redo product; "static": last recorded as a plain file
 
 
 class Model:
@@ -104,7 +105,9 @@ class Model:
         r = self.rec.get(p)
         if r is None:
             return ("unknown",)
-        if r.gen and not r.override:
+        if r.kind == "gen":
+            # (a product whose file has vanished keeps its version: rebuilding it with the same checksum must
+            # not disturb its dependents)
             if r.csum is not None:
                 return ("c", r.csum)
             return ("b", r.serial)
@@ -134,9 +137,9 @@ class Model:
         if self.stamp(p) != r.out_ver:
             is_c = r.csum is not None
             if self.stamp(p) == MISSING and r.gen and persist:
-                # a vanished product is forgotten as a target; it must be built (or supplied by hand) again
+                # a vanished product is forgotten as a target (role), it must be built (or supplied by hand)
+                # again; the stamp mismatch keeps it dirty until then
                 r.gen = False
-                r.failed = True
             return ("U", frozenset([p])) if is_c else D
         acc = set()
         if r.gen and not r.override:
@@ -245,6 +248,7 @@ class Model:
         f = self.fs.get(p)
         if r.gen and f is not None and (r.override or f.ver != r.out_ver):
             self.warned.append(p)
+            r.kind = "static"
             r.override = True
             r.out_ver = f.ver
             r.failed = False
@@ -253,6 +257,7 @@ class Model:
         if f is not None and (r.override or not r.gen):
             if not r.override:
                 r.gen = False
+                r.kind = "static"
                 r.out_ver = f.ver
                 r.failed = False
                 r.failed_run = None
@@ -280,6 +285,7 @@ class Model:
         if dr is None:
             dr = self.rec[dof] = TRec()
         dr.gen = False
+        dr.kind = "static"
         dr.override = False
         dr.built = True
         dr.failed = False
@@ -386,6 +392,7 @@ class Model:
             self.fs[p] = FileRec(data, self._next(), "redo")
             r.out_ver = self.fs[p].ver
         r.gen = True
+        r.kind = "gen"
         r.override = False
         r.failed = False
         r.failed_run = None
